@@ -24,6 +24,11 @@ def run(tier, seed):
                 ("MC_Freeze", "MC_Freeze_check.cfg", {"Times": "{0, 1}", "MaxCycles": 1}, "c04-year", {"tick": 400 * 86400, "every": 5}),
                 ("MC_Freeze", "MC_Freeze_check.cfg", {"Times": "{0, 1, 2, 3, 4}", "MaxCycles": 3, "Exps": "{0, 1, 3, 9}"}, "c04-sim",
                  {"simulate": 4000, "depth": 60})]
+    # the freeze attack proper: two cycles on one datastore, the second one is served exactly the documents stored in
+    # the first while the clock moves on (same shipped root, no newer roots, enforcement on)
+    rp = {"Times": "{0, 1}", "MaxCycles": 2, "Replay": "TRUE", "EnforceChoices": "{TRUE}", "Reads": "FALSE", "MaxReads": 0}
+    mcs.append(("MC_Freeze", "MC_Freeze_check.cfg", {"MaxCycles": 2, "Replay": "TRUE"}, "c04-replaymc"))
+    gens.append(("MC_Freeze", "MC_Freeze_check.cfg", rp, "c04-replay", {}))
     # reads after the load: four independent expirations, the clock moving between load and read
     gens.append(("MC_FreezeRead", "MC_FreezeRead_check.cfg", {}, "c04-read", {"every": 2 if tier == "quick" else 1}))
     v, cov, a, _ = clientlib.run_plan(PID, tier, seed, mcs, gens, FIELDS, nontrivial,
